@@ -69,7 +69,9 @@ ASSUMPTIONS = ['names are ASCII identifiers (str.upper on ASCII); association ke
                'rejects it (generated and checked: MetaModelException, nothing defined; the attribute list is handed to define_class '
                'as list, tuple, zip, generator, iterator, map or dict items view in turn); likewise an attribute name of the '
                'form __x__ (reserved by python; names with underscores that are not of that form are generated and accepted)',
-               'attribute names do not collide with Python-level attributes of xtuml.meta.Class',
+               'attribute names do not collide, in their DECLARED spelling, with Python-level attributes of xtuml.meta.Class (it has no '
+               'public ones); a fifth of the names are words a class could plausibly define (keys, items, get, name, query, '
+               '...) declared in another letter case and read in every case, lower case included',
                'loaded-from-text family: identifiers the text grammar cannot spell (R<digit>... lexes as a relation id, '
                'reserved words) are not generated; this family is checked by D alone (no model counterpart)']
 CHUNK = 6000
@@ -164,6 +166,11 @@ RESERVED_NAMES = ['__class__', '__dict__', '__init__', '__x__', '__Name__', '___
 NEAR_RESERVED = ['____', '__a', 'a__', '_x_', '__ab_', '_ab__', '___']
 
 
+PLAUSIBLE = ['keys', 'items', 'values', 'get', 'update', 'copy', 'clear', 'pop', 'index', 'count', 'name', 'id', 'type',
+             'delete', 'new', 'clone', 'navigate', 'query', 'select_one', 'select_many', 'attributes', 'metaclass', 'links',
+             'storage', 'relate', 'unrelate', 'setdefault', 'format', 'next', 'iter', 'len', 'str', 'repr', 'dict']
+
+
 def _is_dunder(name):
     return len(name) >= 5 and name[:2] == '__' and name[-2:] == '__'
 
@@ -192,6 +199,16 @@ def _random_case(r, maxlen, load=False):
         while len(out) < n:
             nm = ident(1, 6)
             if r.random() < 0.2:
+                # names a class could plausibly define for itself (methods of a mapping, of the metaclass, common words), declared
+                # in ANOTHER letter case: the lower-case spelling of such an attribute must reach the stored value, not
+                # something found on the class
+                w = r.choice(PLAUSIBLE)
+                cand = w.capitalize() if r.random() < 0.5 else respell(r, w)
+                if cand == w:
+                    cand = w.upper()
+                if not (load and cand.upper() in SQL_RESERVED):
+                    nm = cand
+            elif r.random() < 0.2:
                 # names that begin with one or two underscores are ordinary attribute names (only __x__ is reserved): every
                 # spelling of them addresses the one stored value like any other name
                 cand = r.choice(['_', '__']) + nm
